@@ -4,8 +4,8 @@ from collections import Counter
 from .common import VERIF
 
 MECH = {
- 'C01': "static arity checks applied to dead code; JIT helper `unwrap`/`unreachable!` aborts; `sub1`/`zero?` on non-fixnums under JIT; immediate lambda with a rest argument",
- 'C02': "the same JIT-only behaviours seen as configuration dependence",
+ 'C01': "static arity checks applied to dead code; JIT helper `unwrap`/`unreachable!` aborts; immediate lambda with a rest argument; MODULE CODE under the native tier: an error raised by an inlined primitive (car, vector-ref, arithmetic, comparison) does not leave native code, execution continues with void and the stashed error is overwritten at the function's return (`extern_handle_pop`): `(f 1)` with `(define (f x) (car x))` in a required module returns void, handlers are skipped; `num_equal_int` / arithmetic helpers `unreachable!()` on non-numbers (abort); a module containing `(cons)` or `(equal? 1 1 1)` panics while being required; `sub1` / `zero?` (prelude module functions) are instances",
+ 'C02': "the same native-tier behaviours seen as configuration dependence (JIT on/off), plus recursive-inlining differences for rest-argument functions inside modules",
  'C04': "transducer and exception-handler roots not scanned; weak boxes lose reachable targets (`make-weak-box` wraps a fresh unreachable box)",
  'C07': "builtins that panic or hang on particular argument kinds (listed by procedure and argument tuple)",
  'C08': "`apply` on a continuation; an error raised inside a handler panics; a continuation captured inside a handler; sibling extents sharing thunks confused",
